@@ -85,6 +85,7 @@ package otto
 //@   props C05
 //@   requires jsValue(v)
 //@   pure_if v.kind != valueObject
+//@   throws v.kind == valueObject
 //@   ensures isGoNumber(v) ==> sameFloat(result, numOf(v))
 //@   ensures v.kind == valueUndefined ==> isNaN(result)
 //@   ensures v.kind == valueNull ==> result == 0.0 && !signbit(result)
@@ -115,10 +116,26 @@ package otto
 //@   requires jsValue(value)
 //@   ensures isGoNumber(value) ==> sameFloat(result, es5ToInteger(numOf(value)))
 
+// intOf: the int64 that Value.number() reports: the payload itself for integer types,
+// the saturating truncation of the double otherwise (NaN -> 0).
+//@ spec intOf(v Value) int64 = ite(is(v.value, int), int64(v.value.(int)), ite(is(v.value, int64), v.value.(int64),
+//@+  ite(is(v.value, int32), int64(v.value.(int32)), ite(is(v.value, int16), int64(v.value.(int16)), ite(is(v.value, int8), int64(v.value.(int8)),
+//@+  ite(is(v.value, uint32), int64(v.value.(uint32)), ite(is(v.value, uint16), int64(v.value.(uint16)), ite(is(v.value, uint8), int64(v.value.(uint8)),
+//@+  satInt64(numOf(v))))))))))
+
+//@ func parseNumber
+//@   nothrow
+//@   pure
+//@   nosafety
+
 //@ func (Value).number
 //@   props C05 C08 C09
 //@   requires jsValue(v)
 //@   pure_if v.kind != valueObject
+//@   throws v.kind == valueObject
+//@   ensures isGoNumber(v) ==> result.int64 == intOf(v)
+//@   ensures v.kind == valueUndefined ==> result.int64 == 0 && result.kind == numberNaN
+//@   ensures v.kind == valueNull ==> result.int64 == 0 && result.kind == numberInteger
 //@   ensures isGoNumber(v) && (is(v.value, float64) || is(v.value, uint) || is(v.value, uint64)) ==> result.int64 == satInt64(numOf(v))
 //@   ensures isGoNumber(v) && is(v.value, int) ==> result.int64 == int64(v.value.(int))
 //@   ensures isGoNumber(v) && is(v.value, int64) ==> result.int64 == v.value.(int64)
@@ -313,3 +330,100 @@ package otto
 //@   requires wfCall(call) && argOK(call, 0) && argOK(call, 1)
 //@   stable call.ArgumentList
 //@   ensures isGoNumber(argOf(call, 0)) && isGoNumber(argOf(call, 1)) && (isNaN(numOf(argOf(call, 0))) || isNaN(numOf(argOf(call, 1)))) ==> isNaN(result.value.(float64)) && result.kind == valueNumber
+
+// ---------------------------------------------------------------------------
+// otto_.go, type_array.go: index kernels (C08, C09)
+// ---------------------------------------------------------------------------
+
+// relative index of ES5 15.4.4.10/12, 15.5.4.13: k<0 ? max(len+k,0) : min(k,len)
+//@ spec relIndex(k int64, n int64) int64 = ite(k < 0, ite(n + k < 0, 0, n + k), ite(k > n, n, k))
+// clamp of 15.5.4.15 (substring): min(max(k,0),len)
+//@ spec clamp0(k int64, n int64) int64 = ite(k < 0, 0, ite(k > n, n, k))
+
+//@ func valueToRangeIndex
+//@   props C08 C09
+//@   requires jsValue(indexValue) && 0 <= length && length <= 4294967296
+//@   ensures 0 <= result && result <= length
+//@   ensures isGoNumber(indexValue) && !negativeIsZero ==> result == relIndex(intOf(indexValue), length)
+//@   ensures isGoNumber(indexValue) && negativeIsZero ==> result == clamp0(intOf(indexValue), length)
+//@   ensures indexValue.kind == valueUndefined ==> result == 0
+//@   pure_if indexValue.kind != valueObject
+//@   throws indexValue.kind == valueObject
+
+//@ func rangeStartEnd
+//@   props C08 C09
+//@   requires slotOK(array, 0) && slotOK(array, 1) && 0 <= size && size <= 4294967296
+//@   stable array
+//@   ensures 0 <= start && start <= size && 0 <= end && end <= size
+//@   ensures len(array) >= 1 && isGoNumber(array[0]) && !negativeIsZero ==> start == relIndex(intOf(array[0]), size)
+//@   ensures len(array) >= 1 && isGoNumber(array[0]) && negativeIsZero ==> start == clamp0(intOf(array[0]), size)
+//@   ensures len(array) == 0 ==> start == 0
+//@   ensures len(array) < 2 ==> end == size
+//@   ensures len(array) >= 2 && (array[1].kind == valueUndefined || array[1].kind == valueEmpty) ==> end == size
+//@   ensures len(array) >= 2 && isGoNumber(array[1]) && !negativeIsZero && (len(array) < 1 || array[0].kind != valueObject) ==> end == relIndex(intOf(array[1]), size)
+//@   ensures len(array) >= 2 && isGoNumber(array[1]) && negativeIsZero && (len(array) < 1 || array[0].kind != valueObject) ==> end == clamp0(intOf(array[1]), size)
+
+//@ func rangeStartLength
+//@   props C08 C09
+//@   requires slotOK(source, 0) && slotOK(source, 1) && 0 <= size && size <= 4294967296
+//@   stable source
+//@   ensures 0 <= start && start <= size
+//@   ensures len(source) >= 1 && isGoNumber(source[0]) ==> start == relIndex(intOf(source[0]), size)
+//@   ensures len(source) < 2 ==> length == size
+//@   ensures len(source) >= 2 && (source[1].kind == valueUndefined || source[1].kind == valueEmpty) ==> length == size
+//@   ensures len(source) >= 2 && isGoNumber(source[1]) ==> length == intOf(source[1])
+
+//@ func isUint32
+//@   inline
+
+// ES5 15.4.5.1 step 3.c / 15.4.2.2: a length is valid iff ToUint32(v) == ToNumber(v),
+// i.e. v is an integer in [0, 2^32-1]; anything else is a RangeError.
+//@ func arrayUint32
+//@   props C08
+//@   requires jsValue(value)
+//@   ensures isGoNumber(value) ==> numOf(value) == trunc(numOf(value)) && 0.0 <= numOf(value) && numOf(value) <= 4294967295.0 && float64(result) == numOf(value)
+//@   throws !isGoNumber(value) || !(numOf(value) == trunc(numOf(value)) && 0.0 <= numOf(value) && numOf(value) <= 4294967295.0)
+
+// only canonical array indices below 2^32-1 are indices (range part; canonical form: see DESIGN)
+//@ func stringToArrayIndex
+//@   props C08
+//@   ensures result == -1 || (0 <= result && result < 4294967295)
+//@   nothrow
+//@   pure
+
+// ---------------------------------------------------------------------------
+// error.go: exception constructors
+// ---------------------------------------------------------------------------
+
+// newError builds the error record and its stack trace; it reads the scope chain only.
+// Its body is verified under C19 where noted; here its frame is assumed.
+//@ func newError
+//@   trusted
+//@   nothrow
+//@   pure
+//@   ensures result.name == name
+//@ func (*runtime).panicTypeError
+//@   props C19
+//@   nothrow
+//@   pure
+//@   ensures result != nil && result.value.(ottoError).name == "TypeError" && is(result.value, ottoError)
+//@ func (*runtime).panicRangeError
+//@   props C19
+//@   nothrow
+//@   pure
+//@   ensures result != nil && result.value.(ottoError).name == "RangeError" && is(result.value, ottoError)
+//@ func (*runtime).panicReferenceError
+//@   props C19
+//@   nothrow
+//@   pure
+//@   ensures result != nil && result.value.(ottoError).name == "ReferenceError" && is(result.value, ottoError)
+//@ func (*runtime).panicSyntaxError
+//@   props C19
+//@   nothrow
+//@   pure
+//@   ensures result != nil && result.value.(ottoError).name == "SyntaxError" && is(result.value, ottoError)
+//@ func (*runtime).panicURIError
+//@   props C19
+//@   nothrow
+//@   pure
+//@   ensures result != nil && result.value.(ottoError).name == "URIError" && is(result.value, ottoError)
